@@ -82,7 +82,7 @@ Print Assumptions C04_guarded_reader_is_the_source.
    every value and writes nothing. *)
 Theorem C04_widths_are_the_source :
   g_wire_progs = wire_progs /\
-  forall w v id buf i, run_fill (prog_width w) (env_of w v id) buf i = Some (buf, Wire.width w v).
+  forall w v id buf i, run_fill (prog_width w) (wenv_of w v id) buf i = Some (buf, Wire.width w v).
 Proof. exact (conj sync_wire_progs wire_width_is_width). Qed.
 Print Assumptions C04_widths_are_the_source.
 
